@@ -289,8 +289,12 @@ def check(case):
         bsp = [math.log10(v) for v in b] if mode == 'log' else b
         if bsp[0] != bsp[1]:
             out.applies('default-prior')
-            params = {'p': ('p', 'p', lambda: 1.0, lambda v: None, mode, True, b),
-                      'q': ('q', 'q', lambda: 1.0, lambda v: None, mode, False, b)}
+            # the fitted parameter sits between two that are not fitted and whose bounds and mode differ from its own:
+            # its default prior must come from ITS bounds and mode
+            other = 'linear' if mode == 'log' else 'log'
+            params = {'q0': ('q0', 'q0', lambda: 1.0, lambda v: None, other, False, [3.0, 7.0]),
+                      'p': ('p', 'p', lambda: 1.0, lambda v: None, mode, True, b),
+                      'q': ('q', 'q', lambda: 1.0, lambda v: None, mode, False, [11.0, 13.0])}
             res = cut(out, 'default-compile', compile_params, params, {}, None)
             fit_params, fit_priors = res[0], res[1]
             if len(fit_priors) != 1 or len(fit_params) != 1:
